@@ -617,3 +617,202 @@ def run_ctorfail(prog, ctx=None):
             res.ob("%s:failure of %s" % (f.qn, norm(show(e, f))[:40]), ok, f, e.get("l", f.line),
                    "" if ok else "when this constructor fails the function can end without `_used = %s`: the used length may cover memory that holds no element" % counter["n"])
     return res
+
+
+def traits_functions(prog):
+    """(role, function, table key) for the init / fini functions named by static type_traits initialisers"""
+    out = []
+    for u, g in prog.globals:
+        T = u.types[g["t"]]
+        if T.get("k") != "record" or T.get("name", "").split("::")[-1] not in ("mpt_type_traits", "type_traits"):
+            continue
+        init = g.get("init")
+        if not init:
+            continue
+        fields = {}
+        if init.get("k") == "init":
+            r = prog.records.get(T["name"])
+            for idx, e in enumerate(init.get("elts", [])):
+                if r and idx < len(r["fields"]):
+                    fields[r["fields"][idx]["n"]] = e
+        elif init.get("k") == "construct":
+            for idx, e in enumerate(init.get("args", [])[:3]):
+                fields[("size", "fini", "init")[idx]] = e
+        for role in ("init", "fini"):
+            e = fields.get(role)
+            if e is None:
+                continue
+            s = strip(e, all_casts=True)
+            if s.get("k") == "ref" and s["d"].get("dk") == "fn":
+                c = prog.by_qn.get(s["d"].get("qn") or s["d"]["n"], [])
+                c = [x for x in c if x.file == g["file"]] or c
+                if c and not c[0].nocfg:
+                    out.append((role, c[0], "%s:%s" % (g["file"], g.get("in") or g["n"])))
+    return out
+
+
+def run_initwrites(prog, ctx=None):
+    """INITWRITES: the `init` operation of a type_traits table is called on raw memory (a fresh or recycled buffer slot) and
+    its non-negative answer makes that memory an element that `fini` will be run on.  On every path to a return that can be
+    non-negative the element has been written: a store through the element pointer (or an alias of it) or a call that is
+    handed the pointer.  A path that answers success without writing leaves whatever bytes the slot held as the element."""
+    res = Result("INITWRITES")
+    seen = set()
+    for role, f, key in traits_functions(prog):
+        if role != "init" or f.key() in seen or not f.params:
+            continue
+        seen.add(f.key())
+        pid = f.params[0]["id"]
+        alias = {pid}
+        changed = True
+        while changed:
+            changed = False
+            for b, i, n in f.walk_all():
+                pairs = []
+                if n.get("k") == "decl":
+                    pairs = [(v["id"], v["init"]) for v in n["vars"] if v.get("init") is not None]
+                elif n.get("k") == "bin" and n.get("op") == "=":
+                    l = strip(n["a"], lvalue_to_rvalue=False)
+                    if l.get("k") == "ref" and "id" in l["d"]:
+                        pairs = [(l["d"]["id"], n["b"])]
+                for vid, rhs in pairs:
+                    r = strip(rhs, all_casts=True)
+                    if r.get("k") == "ref" and r["d"].get("id") in alias and vid not in alias:
+                        alias.add(vid)
+                        changed = True
+
+        def writes(e):
+            for n in walk_own(e):
+                if n.get("k") == "bin" and n.get("op", "").endswith("=") and n["op"] not in ("==", "!=", "<=", ">="):
+                    l = strip(n["a"], lvalue_to_rvalue=False)
+                    # *(T *) ptr = ..,  p->member = ..,  p[i] = ..
+                    base = l
+                    while base.get("k") in ("mem", "idx", "un", "cast"):
+                        if base.get("k") == "mem":
+                            base = base["b"]
+                        elif base.get("k") == "idx":
+                            base = base["a"]
+                        else:
+                            base = base["e"]
+                        base = strip(base, all_casts=True)
+                    if l.get("k") in ("mem", "idx", "un") and base.get("k") == "ref" and base["d"].get("id") in alias:
+                        return True
+                if n.get("k") in ("call", "construct", "new"):
+                    for a in list(n.get("args", [])) + list(n.get("placement", [])):
+                        s = strip(a, all_casts=True)
+                        if s.get("k") == "ref" and s["d"].get("id") in alias:
+                            return True
+            return False
+
+        wblocks = {}
+        for b, i, e in f.elements():
+            if writes(e):
+                wblocks.setdefault(b.id, i)
+        bad = None
+        work = [(f.entry, 0)] if hasattr(f, "entry") else [(min(f.blocks), 0)]
+        # entry block: the one without predecessors that has successors
+        ent = [bid for bid, b in f.blocks.items() if not b.preds and (b.succ or b.el)]
+        work = [(max(ent) if ent else min(f.blocks))]
+        seenb = set()
+        while work and bad is None:
+            x = work.pop()
+            if x in seenb:
+                continue
+            seenb.add(x)
+            blk = f.blocks[x]
+            if x in wblocks:
+                # a return in this block before the write?
+                for e in blk.el[:wblocks[x]]:
+                    if e.get("k") == "ret" and e.get("e") is not None and not ((cval(e["e"]) or 0) < 0):
+                        bad = e
+                continue
+            for e in blk.el:
+                if e.get("k") == "ret" and e.get("e") is not None:
+                    v = cval(e["e"])
+                    if v is None or v >= 0:
+                        bad = e
+            for s in blk.succ:
+                if s is not None:
+                    work.append(s)
+        res.ob("%s:%s writes the element" % (key, f.qn), bad is None, f, (bad.get("l") if bad else f.line) or f.line,
+               "" if bad is None else "`%s` is reached on a path that never wrote through %s: init() answers success and the slot keeps the bytes it held (a stale pointer or count becomes the element)" % (
+                   norm(show(bad, f)), f.params[0]["n"]))
+    return res
+
+
+def run_finibound(prog, ctx=None):
+    """FINIBOUND: the bound of a finalizer loop is the used length the buffer had when its elements were alive.  Where the
+    bound is read from `B->_used` (directly in the loop condition or through a local), no store to `B->_used` of the same
+    buffer reaches that read: a length that was reset first makes the loop run over nothing, and every element that was alive
+    keeps what it references."""
+    res = Result("FINIBOUND")
+    files = set(ctx.get("files", [])) if ctx else None
+    for f in funcs_of(prog, files):
+        tc = [x for x in trait_calls(f) if x[3] == "fini"]
+        if not tc:
+            continue
+        loops = natural_loops(f)
+        defs_at = {}          # var id -> [(block, idx, rhs)]
+        for b, i, e in f.elements():
+            for n in walk_own(e):
+                if n.get("k") == "bin" and n.get("op") == "=":
+                    l = strip(n["a"], lvalue_to_rvalue=False)
+                    if l.get("k") == "ref" and "id" in l["d"]:
+                        defs_at.setdefault(l["d"]["id"], []).append((b, i, n["b"]))
+                elif n.get("k") == "decl":
+                    for v in n["vars"]:
+                        if v.get("init") is not None:
+                            defs_at.setdefault(v["id"], []).append((b, i, v["init"]))
+        stores = []
+        for b, i, e in f.elements():
+            for n in walk_own(e):
+                if n.get("k") == "bin" and n["op"].endswith("=") and n["op"] not in ("==", "!=", "<=", ">="):
+                    l = strip(n["a"], lvalue_to_rvalue=False)
+                    if l.get("k") == "mem" and l.get("f") == "_used":
+                        stores.append((b, i, n, norm(show(strip(l["b"], all_casts=True), f))))
+        done = set()
+        for b, i, e, role in tc:
+            hs = [h for h, body in loops.items() if b.id in body]
+            if not hs:
+                continue
+            h = min(hs, key=lambda x: len(loops[x]))
+            if h in done:
+                continue
+            done.add(h)
+            # reads of X->_used that feed the loop's exit condition
+            reads = []       # (block, idx, base text)
+            for x in loops[h]:
+                blk = f.blocks[x]
+                if not (blk.term and blk.term.get("cond") is not None and any(s is not None and s not in loops[h] for s in blk.succ)):
+                    continue
+                for n in walk(blk.term["cond"]):
+                    if n.get("k") == "mem" and n.get("f") == "_used":
+                        reads.append((blk, len(blk.el), norm(show(strip(n["b"], all_casts=True), f))))
+                    if n.get("k") == "ref" and n["d"].get("id") in defs_at:
+                        seen = set()
+                        work = [n["d"]["id"]]
+                        while work:
+                            v = work.pop()
+                            if v in seen:
+                                continue
+                            seen.add(v)
+                            for db, di, rhs in defs_at.get(v, []):
+                                for m in walk(rhs):
+                                    if m.get("k") == "mem" and m.get("f") == "_used":
+                                        reads.append((db, di, norm(show(strip(m["b"], all_casts=True), f))))
+                                    if m.get("k") == "ref" and m["d"].get("id") in defs_at and m["d"]["id"] != v:
+                                        work.append(m["d"]["id"])
+            for rb, ri, base in reads:
+                bad = None
+                for sb, si, sn, sbase in stores:
+                    if sbase != base:
+                        continue
+                    if sb.id in loops[h] or (sb.id in f.reachable_from(h) and sb.id != rb.id and rb.id not in f.reachable_from(sb.id)):
+                        continue
+                    before = (sb.id == rb.id and si < ri) or (sb.id != rb.id and rb.id in f.reachable_from(sb.id))
+                    if before:
+                        bad = sn
+                res.ob("%s:bound %s->_used of the finalizer loop at line %s" % (f.qn, base, e.get("l", f.line)), bad is None, f, (bad.get("l") if bad else e.get("l")) or f.line,
+                       "" if bad is None else "`%s` runs before the finalizer loop reads %s->_used as its bound: the loop sees the new length, the elements up to the old one are never finalized" % (
+                           norm(show(bad, f)), base))
+    return res
